@@ -182,6 +182,10 @@ CORPUS = [
     "ins ; @1 psg 15 x",
     "ins ; @1 psg l:5 15 l5 l: 3",
     "ins ; @m1 0 x",
+    # a pitch envelope whose only node has a non-positive length emits nothing (was: back() on an empty vector)
+    "ins ; @m1 7:-3",
+    "ins ; @m1 | 7:-3",
+    "ins ; @m1 V0:1:0",
     "ins ; @1 psg ; @m2 ; #title hello ; @x 1",
 ]
 
@@ -243,7 +247,7 @@ def cases(rng, tier):
     yield from slide_family(rng, tier)
     big = tier != "quick"
     # FM + all 2op derivations
-    for i in range(400 if big else 120):
+    for i in range(1500 if big else 120):
         d = fm_def(rng)
         tr = [str(rng.choice([0, 0, 1, -1, 12, -12, -24, 103, rng.randrange(-24, 104)]))] if rng.random() < 0.7 else []
         groups = [("@1", ["fm"] + d + tr)]
@@ -262,7 +266,7 @@ def cases(rng, tier):
                     toks = [a] + m.split() + [b] + m2.split() + (["3"] if m2 else [])
                     groups = [("@10", ["psg"] + toks)]
                     yield Case(req(groups), tags_of(groups, False), "psg-exhaustive")
-    for i in range(3000 if big else 500):
+    for i in range(10000 if big else 500):
         groups = [("@%d" % (10 + j), ["psg"] + psg_def(rng)) for j in range(rng.choice([1, 1, 2]))]
         yield Case(req(groups), tags_of(groups, False), "psg")
     # pitch: integer nodes exhaustive-ish small family
@@ -274,13 +278,13 @@ def cases(rng, tier):
                 for noext in (False, True):
                     groups = [("@m1", ["%d>%d:%d" % (a, b, n)])]
                     yield Case(req(groups, noext), tags_of(groups, noext), "pitch-exhaustive")
-    for i in range(4000 if big else 700):
+    for i in range(12000 if big else 700):
         noext = rng.random() < 0.3
         dec = rng.random() < 0.4
         groups = [("@m%d" % (j + 1), pitch_def(rng, dec)) for j in range(rng.choice([1, 1, 2]))]
         yield Case(req(groups, noext), tags_of(groups, noext), "pitch")
     # mixed songs
-    for i in range(600 if big else 100):
+    for i in range(2000 if big else 100):
         groups = []
         noext = rng.random() < 0.2
         for j in range(rng.choice([2, 3, 5])):
@@ -296,7 +300,7 @@ def cases(rng, tier):
                 groups.append(("@m%d" % (j + 1), pitch_def(rng, rng.random() < 0.3)))
         yield Case(req(groups, noext), tags_of(groups, noext), "mixed")
     # through MML text
-    for i in range(500 if big else 120):
+    for i in range(2000 if big else 120):
         text, kind = mml_text(rng)
         yield Case("insmml " + text.encode().hex(), tuple(sorted(set(kind))) + ("mml",), "mml")
     # malformed stream (safe alphabet for the strtod model: no e/x/p/i/n after digits)
@@ -304,7 +308,7 @@ def cases(rng, tier):
                 "1.5", "2>1.5", "7:-3", "7:256", "7:257", "7>3:0", "V", "V:", "V1", "V1:2", "V1:2:", "V::3", "V0:1:0", "V0:1:-2", "V-1:3:4", "3>", "3>:5",
                 "0>0:0", "+5", "5>+7", "5>-7", "99999", "1>2>3", "1:2:3", "fm", "psg", "", "a", "@"]
     alphabet = [a for a in alphabet if a]
-    for i in range(1500 if big else 300):
+    for i in range(5000 if big else 300):
         kind = rng.choice(["psg", "pitch", "fm", "2op", "key"])
         if kind == "psg":
             groups = [("@1", ["psg"] + [rng.choice(alphabet) for _ in range(rng.randrange(1, 6))])]
@@ -345,6 +349,11 @@ def finding_key(case, impl, judge):
 
 
 def step_overflow(reqline):
+    if reqline.startswith("insmml "):
+        try:
+            reqline = bytes.fromhex(reqline.split()[1]).decode("latin-1")
+        except Exception:
+            pass
     for m in re.finditer(r"(-?\d+(?:\.\d+)?)>(-?\d+(?:\.\d+)?):(\d+)", reqline):
         a, b, n = float(m.group(1)), float(m.group(2)), int(m.group(3))
         if n >= 1 and abs(b - a) * 256 / n >= 32768:
